@@ -891,62 +891,77 @@ func crossCheck(rr *runResult, smtDir string, seed int, extra map[string]any) {
 func sensitivity(repo, prop string, extra map[string]any) {
 	dirs, _ := filepath.Glob(filepath.Join(verifDir, "seeded", prop+"-*"))
 	sort.Strings(dirs)
-	var rows []any
-	for _, d := range dirs {
-		var meta struct {
-			Expect string `json:"expect"`
-			Change string `json:"change"`
-			Tier   string `json:"tier"`
-		}
-		_ = loadJSON(filepath.Join(d, "meta.json"), &meta)
-		tmp, err := os.MkdirTemp("", "govc-sens-")
-		if err != nil {
-			continue
-		}
-		row := map[string]any{"seeded": filepath.Base(d), "change": meta.Change}
-		func() {
-			defer os.RemoveAll(tmp)
-			cp := exec.Command("rsync", "-a", "--exclude", ".git", repo+"/", tmp+"/repo/")
-			if out, err := cp.CombinedOutput(); err != nil {
-				row["result"] = "copy failed: " + truncate(string(out), 200)
+	rowsBy := make([]any, len(dirs))
+	var wg sync.WaitGroup
+	sem := make(chan struct{}, 4) // four scratch copies at a time
+	for di, d := range dirs {
+		di, d := di, d
+		wg.Add(1)
+		sem <- struct{}{}
+		go func() {
+			defer func() { <-sem; wg.Done() }()
+			var meta struct {
+				Expect string `json:"expect"`
+				Change string `json:"change"`
+				Tier   string `json:"tier"`
+			}
+			_ = loadJSON(filepath.Join(d, "meta.json"), &meta)
+			tmp, err := os.MkdirTemp("", "govc-sens-")
+			if err != nil {
 				return
 			}
-			ap := exec.Command("git", "apply", "--unsafe-paths", "--directory="+filepath.Join(tmp, "repo"), filepath.Join(d, "patch.diff"))
-			ap.Dir = "/"
-			if out, err := ap.CombinedOutput(); err != nil {
-				ap2 := exec.Command("patch", "-p1", "-s", "-i", filepath.Join(d, "patch.diff"))
-				ap2.Dir = filepath.Join(tmp, "repo")
-				if out2, err2 := ap2.CombinedOutput(); err2 != nil {
-					row["result"] = "patch no longer applies to the current tree: " + truncate(string(out)+string(out2), 200)
+			row := map[string]any{"seeded": filepath.Base(d), "change": meta.Change}
+			func() {
+				defer os.RemoveAll(tmp)
+				cp := exec.Command("rsync", "-a", "--exclude", ".git", repo+"/", tmp+"/repo/")
+				if out, err := cp.CombinedOutput(); err != nil {
+					row["result"] = "copy failed: " + truncate(string(out), 200)
 					return
 				}
-			}
-			self, _ := os.Executable()
-			tier := "quick"
-			if meta.Tier == "thorough" {
-				tier = "thorough" // changes only the bounded probes of the thorough tier can see (recorded in meta.json)
-			}
-			row["tier"] = tier
-			c := exec.Command(self, "check", "-property", prop, "-tier", tier)
-			c.Env = append(os.Environ(), "GOVC_REPO="+filepath.Join(tmp, "repo"), "GOVC_EVIDENCE_DIR="+filepath.Join(tmp, "ev"), "GOVC_REPLAY_DIR="+filepath.Join(tmp, "replays"), "VERIF_TIER="+tier, "GOVC_NO_SENSITIVITY=1")
-			out, _ := c.CombinedOutput()
-			reported := strings.Contains(string(out), "VIOLATION property="+prop)
-			var names []string
-			for _, l := range strings.Split(string(out), "\n") {
-				if strings.HasPrefix(l, "  failed obligation ") {
-					f := strings.Fields(l)
-					if len(f) >= 3 {
-						names = append(names, f[2])
+				ap := exec.Command("git", "apply", "--unsafe-paths", "--directory="+filepath.Join(tmp, "repo"), filepath.Join(d, "patch.diff"))
+				ap.Dir = "/"
+				if out, err := ap.CombinedOutput(); err != nil {
+					ap2 := exec.Command("patch", "-p1", "-s", "-i", filepath.Join(d, "patch.diff"))
+					ap2.Dir = filepath.Join(tmp, "repo")
+					if out2, err2 := ap2.CombinedOutput(); err2 != nil {
+						row["result"] = "patch no longer applies to the current tree: " + truncate(string(out)+string(out2), 200)
+						return
 					}
 				}
-			}
-			row["reported"] = reported
-			row["failed_obligations"] = names
-			if meta.Expect == "missed" {
-				row["recorded_gap"] = true
-			}
+				self, _ := os.Executable()
+				tier := "quick"
+				if meta.Tier == "thorough" {
+					tier = "thorough" // changes only the bounded probes of the thorough tier can see (recorded in meta.json)
+				}
+				row["tier"] = tier
+				c := exec.Command(self, "check", "-property", prop, "-tier", tier)
+				c.Env = append(os.Environ(), "GOVC_REPO="+filepath.Join(tmp, "repo"), "GOVC_EVIDENCE_DIR="+filepath.Join(tmp, "ev"), "GOVC_REPLAY_DIR="+filepath.Join(tmp, "replays"), "VERIF_TIER="+tier, "GOVC_NO_SENSITIVITY=1")
+				out, _ := c.CombinedOutput()
+				reported := strings.Contains(string(out), "VIOLATION property="+prop)
+				var names []string
+				for _, l := range strings.Split(string(out), "\n") {
+					if strings.HasPrefix(l, "  failed obligation ") {
+						f := strings.Fields(l)
+						if len(f) >= 3 {
+							names = append(names, f[2])
+						}
+					}
+				}
+				row["reported"] = reported
+				row["failed_obligations"] = names
+				if meta.Expect == "missed" {
+					row["recorded_gap"] = true
+				}
+			}()
+			rowsBy[di] = row
 		}()
-		rows = append(rows, row)
+	}
+	wg.Wait()
+	var rows []any
+	for _, r := range rowsBy {
+		if r != nil {
+			rows = append(rows, r)
+		}
 	}
 	extra["sensitivity_seeded_changes"] = rows
 	extra["sensitivity_note"] = "must-fail corpus: each seeded change is applied to a scratch copy of the current working tree (outside /repo, removed afterwards) and the quick check is run on the copy; informational, never part of the verdict"
